@@ -11,6 +11,18 @@ both ways, SLOS and Naive) are run through the public entry points `Simulator.pr
 and `Experiment.with_input` is compared with `PM.C04.interleave`.  On a disagreement the property is
 evaluated directly on the real code without Lean: the unconditioned distribution from a selection-free
 `Simulator` on the same circuit and input, conditioned by 15 lines of Python (`direct_oracle`).
+
+Shapes the generator must produce (each has a required branch counter):
+  * heralds *declared* in any order (`add_herald` calls / insertion order of the `heralds` dict), in particular
+    descending with a free mode after the highest herald;
+  * detector layouts: none, all PNR, all threshold, mixed (threshold / interleaved pseudo-PNR on data modes while the
+    heralded modes stay PNR, threshold on a heralded mode, detectors declared before or after the heralds); the
+    specification then conditions the distribution of the *detected* pattern (`PM.C04.detectedFull`), the
+    direct oracle pushes the unconditioned distribution through closed-form detector kernels;
+  * a long-lived `Simulator` / `Processor` that already answered another request (other heralds, filter,
+    post-selection, detectors, input, noise) before the judged one: the answer must not depend on the history.
+The real code runs in a separate worker process: a native crash (or a hang) of the code under test on a legal
+input is reported as a violation with the configuration that triggers it instead of killing the harness.
 """
 from __future__ import annotations
 
@@ -19,6 +31,7 @@ import glob
 import json
 import math
 import os
+import signal
 from fractions import Fraction
 
 import numpy as np
@@ -94,6 +107,71 @@ def gen_heralds(rng, m, allow2):
     return out
 
 
+def declare(rng, heralds):
+    """the order in which the heralds are *declared* (add_herald calls / dict insertion): mode order, shuffled,
+    or descending"""
+    if len(heralds) < 2:
+        return heralds
+    r = rng.random()
+    if r < 0.45:
+        return heralds
+    if r < 0.75:
+        return sorted(heralds, reverse=True)
+    hs = list(heralds)
+    rng.shuffle(hs)
+    return hs
+
+
+def gen_dets(rng, m, heralds, nmax):
+    """per mode: None (no detector) | "pnr" | "thr" | ["ppnr", wires, max_detections or None]; or None = no
+    detector list at all.  A herald is never given a detector that cannot report its value
+    (`check_heralds_detectors` answers that configuration with an early exit that is outside the statement)."""
+    r = rng.random()
+    if r < 0.4:
+        return None
+    hm = {k: v for k, v in heralds}
+
+    def nonpnr():
+        if rng.random() < 0.6:
+            return "thr"
+        w = rng.randint(2, 3)
+        return ["ppnr", w, rng.choice([None, None, 1, 2]) if w > 2 else rng.choice([None, 1, 2])]
+
+    if r < 0.48:
+        dets = ["pnr" if rng.random() < 0.5 else None for _ in range(m)]
+    elif r < 0.6:
+        dets = ["thr"] * m
+    elif r < 0.85 and len(hm) < m:
+        # heralded modes photon-number resolved, something else on at least one data mode
+        dets = [rng.choice([None, "pnr"]) if k in hm else rng.choice([None, "pnr", nonpnr(), nonpnr()])
+                for k in range(m)]
+        free = [k for k in range(m) if k not in hm]
+        if all(det_is_pnr(dets[k]) for k in free):
+            dets[rng.choice(free)] = nonpnr()
+    else:
+        dets = [rng.choice([None, "pnr", nonpnr(), nonpnr()]) for _ in range(m)]
+    for k, v in hm.items():
+        if det_max(dets[k]) is not None and det_max(dets[k]) < v:
+            dets[k] = "pnr"
+    return dets
+
+
+def det_is_pnr(d):
+    return d is None or d == "pnr"
+
+
+def det_max(d):
+    if det_is_pnr(d):
+        return None
+    if d == "thr":
+        return 1
+    return d[1] if d[2] is None else min(d[1], d[2])
+
+
+def dets_all_pnr(dets):
+    return not dets or all(det_is_pnr(d) for d in dets)
+
+
 def gen_tagged_state(rng, m, n, ntags):
     st = [[] for _ in range(m)]
     for _ in range(n):
@@ -150,9 +228,20 @@ def gen_sim_config(rng, max_m, superposed=False):
         mb["w"] = mb["w"] / tot
     nin = max([sum(len(x) for x in (mb["state"] if "state" in mb else mb["terms"][0]["state"])) for mb in uniq])
     ps_s, ps_j = (None, True) if rng.random() < 0.3 else gen_ps(rng, m, rng.randint(0, 2))
-    return {"kind": "sim", "backend": rng.choice(["SLOS", "SLOS", "Naive"]), "m": m, "circ": gen_circuit(rng, m),
-            "heralds": heralds, "ps": ps_s, "psj": ps_j, "filter": (rng.randint(0, max(0, nin - H)) if rng.random() < 0.92 else max(0, nin - H) + 1),
-            "keep": rng.random() < 0.5, "members": uniq}
+    cfg = {"kind": "sim", "backend": rng.choice(["SLOS", "SLOS", "Naive"]), "m": m, "circ": gen_circuit(rng, m),
+           "heralds": declare(rng, heralds), "ps": ps_s, "psj": ps_j,
+           "filter": (rng.randint(0, max(0, nin - H)) if rng.random() < 0.92 else max(0, nin - H) + 1),
+           "keep": rng.random() < 0.5, "members": uniq}
+    is_sup = any("terms" in mb for mb in uniq)
+    cfg["dets"] = None if is_sup else gen_dets(rng, m, heralds, nin)
+    if not is_sup and rng.random() < 0.3:
+        # the simulator already answered another request: other heralds / filter / post-selection / detectors
+        ph = gen_heralds(rng, m, allow2=True) if rng.random() < 0.7 else heralds
+        pps, _ = (None, True) if rng.random() < 0.4 else gen_ps(rng, m, rng.randint(0, 1))
+        cfg["prev"] = {"heralds": declare(rng, ph), "ps": pps, "filter": rng.randint(0, 2),
+                       "keep": rng.random() < 0.5,
+                       "dets": gen_dets(rng, m, ph, nin) if rng.random() < 0.6 else cfg["dets"]}
+    return cfg
 
 
 def gen_proc_config(rng, max_m):
@@ -182,8 +271,32 @@ def gen_proc_config(rng, max_m):
     filt = rng.randint(0, nin) if rng.random() < 0.9 else nin + 1
     if noise is None and rng.random() < 0.25:
         filt = None                                  # automatic default of a perfect source
-    return {"kind": "proc", "backend": rng.choice(["SLOS", "SLOS", "Naive"]), "m": m, "circ": gen_circuit(rng, m),
-            "heralds": heralds, "ps": ps_s, "psj": ps_j, "filter": filt, "keep": False, "user": user, "noise": noise}
+    cfg = {"kind": "proc", "backend": rng.choice(["SLOS", "SLOS", "Naive"]), "m": m, "circ": gen_circuit(rng, m),
+           "heralds": declare(rng, heralds), "ps": ps_s, "psj": ps_j, "filter": filt, "keep": False, "user": user,
+           "noise": noise, "dets": gen_dets(rng, m, heralds, nin + H), "dets_first": rng.random() < 0.4}
+    if rng.random() < 0.3:
+        # the processor already answered probs() with another filter / input / post-selection / noise
+        prev = {}
+        if filt is not None and rng.random() < 0.6:
+            prev["filter"] = rng.choice([x for x in range(0, nin + 2) if x != filt])
+        if filt is not None and rng.random() < 0.5:
+            u2 = list(user)
+            i = rng.randrange(free)
+            u2[i] = 0 if u2[i] else 1
+            prev["user"] = u2
+        if rng.random() < 0.4:
+            prev["ps"] = None if ps_s is not None and rng.random() < 0.5 else gen_ps(rng, m, rng.randint(0, 1))[0]
+            if prev["ps"] == ps_s:
+                del prev["ps"]
+        if noise is not None and rng.random() < 0.3:
+            prev["noise"] = {"indistinguishability": rng.choice([0.6, 1.0]), "transmittance": rng.choice([0.7, 1.0]),
+                             "g2": 0.0}
+        if not prev:
+            prev["filter"] = (filt + 1) if filt is not None else None
+            if prev["filter"] is None:
+                prev = {"ps": "[0] >= 0"} if ps_s != "[0] >= 0" else {"ps": None}
+        cfg["prev"] = prev
+    return cfg
 
 
 # ------------------------------------------------------------------------------------------------
@@ -236,12 +349,37 @@ def canon_result(res):
             "global": (float(res["global_perf"]) if "global_perf" in res else None)}
 
 
+def build_det(d):
+    from perceval import Detector
+    if d is None:
+        return None
+    if d == "pnr":
+        return Detector.pnr()
+    if d == "thr":
+        return Detector.threshold()
+    return Detector.ppnr(d[1], d[2])
+
+
+def build_dets(dets):
+    return None if dets is None else [build_det(d) for d in dets]
+
+
+def sim_select(sim, st):
+    """one request's selection on a (possibly already used) Simulator"""
+    import perceval as pcvl
+    heralds = {int(k): int(v) for k, v in st["heralds"]}       # insertion order = declaration order
+    sim.set_selection(min_detected_photons_filter=st["filter"], heralds=heralds,
+                      postselect=pcvl.PostSelect(st["ps"]) if st["ps"] else None)
+    if not st["ps"]:
+        sim.clear_postselection()
+    sim.keep_heralds(st["keep"])
+
+
 def run_real(cfg):
     """-> dict(obs=…, U=matrix the circuit reports, members=[{w, groups | terms}], full_input=…) or dict(err=…)"""
     import perceval as pcvl
     from perceval.simulators import Simulator
     circ = build_circuit(cfg["circ"])
-    heralds = {int(k): int(v) for k, v in cfg["heralds"]}
     ps = pcvl.PostSelect(cfg["ps"]) if cfg["ps"] else None
     out = {}
     try:
@@ -249,11 +387,16 @@ def run_real(cfg):
             sim = Simulator(pcvl.BackendFactory.get_backend(cfg["backend"]))
             sim.set_circuit(circ)
             sim.set_precision(0)
-            sim.set_selection(min_detected_photons_filter=cfg["filter"], heralds=heralds, postselect=ps)
-            sim.keep_heralds(cfg["keep"])
-            res = sim.probs_svd(svd_of(cfg["members"]))
             members = cfg["members"]
             fock = [mb for mb in members if "state" in mb]
+            if cfg.get("prev"):
+                # an earlier request on the same object (its answer is not judged here)
+                sim_select(sim, cfg["prev"])
+                sim.probs_svd(svd_of(members), build_dets(cfg["prev"]["dets"]))
+                if fock:
+                    sim.evolve(bs_of(fock[0]["state"]))
+            sim_select(sim, cfg)
+            res = sim.probs_svd(svd_of(members), build_dets(cfg.get("dets")))
             if fock:
                 # Simulator.evolve + logical_perf on the same (mask-configured) simulator, first Fock member
                 sv = sim.evolve(bs_of(fock[0]["state"]))
@@ -270,16 +413,42 @@ def run_real(cfg):
                 else:
                     lean_members.append({"w": mb["w"], "terms": mb["terms"]})
         else:
-            noise = pcvl.NoiseModel(**cfg["noise"]) if cfg["noise"] else None
+            prev = cfg.get("prev") or {}
+            first = dict(cfg, **prev)
+            noise = pcvl.NoiseModel(**first["noise"]) if first["noise"] else None
             p = pcvl.Processor(cfg["backend"], cfg["m"], noise=noise)
             p.add(0, circ)
-            for k, v in cfg["heralds"]:
+            dets = cfg.get("dets")
+
+            def add_dets():
+                for k, d in enumerate(dets or []):
+                    if d is not None:
+                        p.add(k, build_det(d))
+
+            if cfg.get("dets_first"):
+                add_dets()
+            for k, v in cfg["heralds"]:                     # declaration order
                 p.add_herald(k, v)
-            if ps is not None:
-                p.set_postselection(ps)
-            if cfg["filter"] is not None:
-                p.min_detected_photons_filter(cfg["filter"])
-            p.with_input(pcvl.BasicState(cfg["user"]))
+            if not cfg.get("dets_first"):
+                add_dets()
+            if first["ps"]:
+                p.set_postselection(pcvl.PostSelect(first["ps"]))
+            if first["filter"] is not None:
+                p.min_detected_photons_filter(first["filter"])
+            p.with_input(pcvl.BasicState(first["user"]))
+            if prev:
+                p.probs(precision=0)                        # an earlier request on the same object
+                if "noise" in prev:
+                    p.noise = pcvl.NoiseModel(**cfg["noise"]) if cfg["noise"] else pcvl.NoiseModel()
+                if "ps" in prev:
+                    if ps is not None:
+                        p.set_postselection(ps)
+                    else:
+                        p.clear_postselection()
+                if "filter" in prev:
+                    p.min_detected_photons_filter(cfg["filter"])
+                if "user" in prev:
+                    p.with_input(pcvl.BasicState(cfg["user"]))
             out["full_input"] = list(p.input_state)
             res = p.probs(precision=0)
             U = np.array(p.linear_circuit().compute_unitary(), dtype=complex)
@@ -293,9 +462,44 @@ def run_real(cfg):
     return out
 
 
+def surj(k, j):
+    """number of surjections of a k-set onto a j-set"""
+    return sum((-1) ** i * math.comb(j, i) * (j - i) ** k for i in range(j + 1))
+
+
+def kernel(d, k):
+    """closed-form detection kernel: detector description, photons on the mode -> {reported count: Fraction}.
+    Interleaved detector with w wires: the k photons fall independently and uniformly on the wires, j distinct wires
+    are hit with probability C(w,j)·surj(k,j)/w^k, and the reported count is capped at max_detections."""
+    if det_is_pnr(d):
+        return {k: Fraction(1)}
+    if d == "thr":
+        return {min(k, 1): Fraction(1)}
+    w, mx = d[1], det_max(d)
+    out = {}
+    for j in range(0, min(k, w) + 1):
+        pr = Fraction(math.comb(w, j) * surj(k, j), w ** k)
+        if pr:
+            out[min(j, mx)] = out.get(min(j, mx), Fraction(0)) + pr
+    return out
+
+
+def detect_state(dets, t):
+    """{detected pattern: float probability} of one PNR outcome"""
+    outs = {(): 1.0}
+    for d, x in zip(dets, t):
+        nxt = {}
+        for j, q in kernel(d, x).items():
+            for pre, pp in outs.items():
+                nxt[pre + (j,)] = nxt.get(pre + (j,), 0.0) + pp * float(q)
+        outs = nxt
+    return outs
+
+
 def direct_oracle(cfg, eff_filter):
     """The property evaluated on the real code without the Lean driver: unconditioned distribution of a
-    selection-free Simulator on the same circuit and input, conditioned here."""
+    selection-free, detector-free Simulator on the same circuit and input, pushed through the closed-form detector
+    kernels and conditioned here."""
     import perceval as pcvl
     from perceval.simulators import Simulator
     circ = build_circuit(cfg["circ"])
@@ -308,7 +512,15 @@ def direct_oracle(cfg, eff_filter):
         noise = pcvl.NoiseModel(**cfg["noise"]) if cfg["noise"] else pcvl.NoiseModel()
         full_in = lean_free_interleave(cfg["m"], cfg["heralds"], cfg["user"])
         svd = pcvl.Source.from_noise_model(noise).generate_distribution(pcvl.BasicState(full_in))
-    full = sim.probs_svd(svd)["results"]
+    raw = sim.probs_svd(svd)["results"]
+    dets = cfg.get("dets")
+    full = {}
+    for s, p in raw.items():
+        if dets:
+            for t, q in detect_state(dets, list(s)).items():
+                full[t] = full.get(t, 0.0) + float(p) * q
+        else:
+            full[tuple(s)] = full.get(tuple(s), 0.0) + float(p)
     heralds = {int(k): int(v) for k, v in cfg["heralds"]}
     H = sum(heralds.values())
     phys = ret = 0.0
@@ -324,6 +536,104 @@ def direct_oracle(cfg, eff_filter):
             kept[key] = kept.get(key, 0.0) + p
     return {"results": {k: v / ret for k, v in kept.items()} if ret > 0 else {}, "phys": phys,
             "logical": (ret / phys if phys > 0 else 0.0)}
+
+
+def malformed_real(m, heralds, user):
+    import perceval as pcvl
+    p = pcvl.Processor("SLOS", m)
+    for k, v in heralds:
+        p.add_herald(k, v)
+    try:
+        p.with_input(pcvl.BasicState(user))
+        return "accepted"
+    except AssertionError:
+        return "AssertionError"
+    except Exception as e:  # noqa: BLE001
+        return type(e).__name__
+
+
+# ------------------------------------------------------------------------------------------------
+# the real code runs in a worker process: a native crash must not take the harness down
+# ------------------------------------------------------------------------------------------------
+REAL_FUNCS = {"run_real": run_real, "direct_oracle": direct_oracle, "malformed_real": malformed_real}
+
+
+def _worker_main(conn, seed):
+    import perceval as pcvl
+    pcvl.random_seed(seed)
+    silence()
+    while True:
+        try:
+            msg = conn.recv()
+        except (EOFError, OSError):
+            return
+        if msg is None:
+            return
+        name, args = msg
+        try:
+            conn.send(("ok", REAL_FUNCS[name](*args)))
+        except BaseException as e:  # noqa: BLE001 — reported to the caller, which decides
+            conn.send(("exc", f"{type(e).__name__}: {e}"))
+
+
+class Crash(Exception):
+    """the process running the implementation died (signal) or did not answer"""
+
+    def __init__(self, how):
+        super().__init__(how)
+        self.how = how
+
+
+class RealWorker:
+    TIMEOUT = 300
+
+    def __init__(self, seed):
+        self.seed = seed
+        self.crashes = 0
+        self._start()
+
+    def _start(self):
+        import multiprocessing as mp
+        ctx = mp.get_context("spawn")
+        self.conn, child = ctx.Pipe()
+        self.proc = ctx.Process(target=_worker_main, args=(child, self.seed), daemon=True)
+        self.proc.start()
+        child.close()
+
+    def call(self, name, *args):
+        try:
+            self.conn.send((name, args))
+            if not self.conn.poll(self.TIMEOUT):
+                self.proc.kill()                      # by pid, our own child
+                self.proc.join(10)
+                self._start()
+                self.crashes += 1
+                raise Crash(f"no answer within {self.TIMEOUT} s (killed)")
+            kind, val = self.conn.recv()
+        except (EOFError, ConnectionError, OSError):
+            self.proc.join(10)
+            code = self.proc.exitcode
+            self._start()
+            self.crashes += 1
+            if code is not None and code < 0:
+                try:
+                    nm = signal.Signals(-code).name
+                except ValueError:
+                    nm = f"signal {-code}"
+                raise Crash(f"the interpreter died with {nm}")
+            raise Crash(f"the interpreter exited with status {code}")
+        if kind == "exc":
+            raise RuntimeError(val)
+        return val
+
+    def close(self):
+        try:
+            self.conn.send(None)
+            self.proc.join(10)
+        except Exception:  # noqa: BLE001
+            pass
+        if self.proc.is_alive():
+            self.proc.kill()
 
 
 def lean_free_interleave(m, heralds, user):
@@ -375,7 +685,22 @@ def lean_request(cfg, real, eff_filter):
     return {"op": "c04", "m": cfg["m"], "U": U,
             "members": [{"w": core.rat(mb["w"]), "groups": mb["groups"]} for mb in real["members"]],
             "cfg": {"heralds": cfg["heralds"], "ps": cfg["psj"], "filter": eff_filter, "keepHeralds": cfg["keep"],
-                    "pnr": True}}
+                    "pnr": True},
+            "dets": lean_dets(cfg.get("dets"), max([sum(map(sum, mb["groups"])) for mb in real["members"]] + [0]))}
+
+
+def lean_dets(dets, nmax):
+    """detector descriptions for the driver: PNR / threshold by name, anything else as its exact kernel table
+    (row k = reported-count distribution for k photons), from the closed form"""
+    if not dets:
+        return None
+    out = []
+    for d in dets:
+        if d is None or d in ("pnr", "thr"):
+            out.append(d)
+        else:
+            out.append([[[j, core.rat(q)] for j, q in sorted(kernel(d, k).items())] for k in range(nmax + 1)])
+    return out
 
 
 def dist_of_json(rows):
@@ -425,9 +750,21 @@ def effective_filter(cfg):
     return sum(cfg["user"])
 
 
+def crash_verdict(cfg, e, where):
+    if "no answer" in e.how:
+        return ("broken", "real-code-timeout", f"{where}: {e.how}")
+    return ("violation", "native-crash",
+            f"{where} on a legal configuration (heralds {cfg['heralds']} in declaration order, filter "
+            f"{cfg['filter']}, post-selection {cfg['ps']}, detectors {cfg.get('dets')}): {e.how}")
+
+
 def judge(chk, cfg):
     """-> None or (kind, signature, what)"""
-    real = run_real(cfg)
+    entry = "Processor.probs" if cfg["kind"] == "proc" else "Simulator.probs_svd"
+    try:
+        real = chk.real.call("run_real", cfg)
+    except Crash as e:
+        return crash_verdict(cfg, e, entry)
     if "err" in real:
         return ("violation", "raises-" + real["err"],
                 f"{'Processor.probs' if cfg['kind'] == 'proc' else 'Simulator.probs_svd'} raised {real['err']}: {real['msg']}")
@@ -458,6 +795,16 @@ def judge(chk, cfg):
         model = {"results": dist_of_json(rep["model"]["results"]), "phys": Fraction(rep["model"]["phys"]),
                  "logical": Fraction(rep["model"]["logical"])}
         retained = float(Fraction(rep["spec"]["retained"]))
+        if not dets_all_pnr(cfg.get("dets")) and cfg["heralds"] and 0 < spec["phys"] < 1 and retained > 1e-13 \
+                and all(det_is_pnr(cfg["dets"][k]) for k, _ in cfg["heralds"]):
+            chk.branch("detector-filter-bites-under-pnr-heralds")
+        if spec["phys"] == 0 and not dets_all_pnr(cfg.get("dets")):
+            # P(heralds and post-selection | filter passed) is undefined when the filter never passes; the detector
+            # stage then reports 1 where the PNR path reports 0 — the product (retained probability 0) is compared
+            chk.branch("filter-never-passes-after-detection")
+            obs = dict(obs, logical=0.0)
+            spec = dict(spec, logical=Fraction(0))
+            model = dict(model, logical=Fraction(0))
         # instance of the theorem `probsSvd_spec` (mass of the engine's distributions is 1 only up to rounding)
         mfloat = {"results": {k: float(v) for k, v in model["results"].items()}, "phys": float(model["phys"]),
                   "logical": float(model["logical"]), "global": None}
@@ -491,7 +838,7 @@ def judge(chk, cfg):
         ev = real["evolve"]
         chk.branch("evolve")
         r2 = chk.lean.ask(dict(req, members=[{"w": "1", "groups": ev["groups"]}],
-                               cfg=dict(req["cfg"], filter=0)))
+                               cfg=dict(req["cfg"], filter=0), dets=None))
         if "err" in r2:
             return ("broken", "lean-rejects", f"driver rejected the evolve request: {r2['err']}")
         ret2 = Fraction(r2["spec"]["retained"])
@@ -509,9 +856,10 @@ def judge(chk, cfg):
         bad2 = compare(ev, sp2)
         if bad2:
             # the property evaluated without Lean: selection-free simulator on the same single input, conditioned here
-            one = dict(cfg, members=[dict(next(mb for mb in cfg["members"] if "state" in mb), w=1.0)], filter=0)
+            one = dict(cfg, members=[dict(next(mb for mb in cfg["members"] if "state" in mb), w=1.0)], filter=0,
+                       dets=None)
             try:
-                d2 = direct_oracle(one, 0)
+                d2 = chk.real.call("direct_oracle", one, 0)
             except Exception as e:  # noqa: BLE001
                 return ("broken", "direct-oracle-crash", f"{type(e).__name__}: {e}")
             if not faithful:
@@ -530,7 +878,9 @@ def judge(chk, cfg):
     # failing-input search: the property evaluated directly on the real code
     field, what = bad[0]
     try:
-        d = direct_oracle(cfg, eff)
+        d = chk.real.call("direct_oracle", cfg, eff)
+        if d["phys"] <= 1e-13 and not dets_all_pnr(cfg.get("dets")):
+            d = dict(d, logical=0.0)
         dbad = compare(obs, d)
     except Exception as e:  # noqa: BLE001
         return ("broken", "direct-oracle-crash", f"{type(e).__name__}: {e}")
@@ -568,7 +918,7 @@ def shrink(chk, cfg, sig):
         return r is not None and r[1] == sig
 
     cur = copy.deepcopy(cfg)
-    budget = 60
+    budget = 12 if sig in ("native-crash", "real-code-timeout") else 60   # every crash costs a worker restart
 
     def attempt(cand):
         nonlocal cur, budget
@@ -583,6 +933,27 @@ def shrink(chk, cfg, sig):
     changed = True
     while changed and budget > 0:
         changed = False
+        if cur.get("prev"):
+            c = copy.deepcopy(cur)
+            del c["prev"]
+            changed |= attempt(c)
+        if cur.get("dets"):
+            c = copy.deepcopy(cur)
+            c["dets"] = None
+            if not attempt(c):
+                for i, d in enumerate(cur["dets"]):
+                    if d is not None:
+                        c = copy.deepcopy(cur)
+                        c["dets"][i] = None
+                        if attempt(c):
+                            changed = True
+                            break
+            else:
+                changed = True
+        if cur["heralds"] != sorted(cur["heralds"]):
+            c = copy.deepcopy(cur)
+            c["heralds"] = sorted(c["heralds"])
+            changed |= attempt(c)
         if cur["ps"]:
             c = copy.deepcopy(cur)
             c["ps"], c["psj"] = None, True
@@ -595,6 +966,8 @@ def shrink(chk, cfg, sig):
                 full = lean_free_interleave(cur["m"], cur["heralds"], cur["user"])
                 hm = {k for k, _ in c["heralds"]}
                 c["user"] = [x for k, x in enumerate(full) if k not in hm]
+                if c.get("prev") and "user" in c["prev"]:
+                    del c["prev"]["user"]
             if attempt(c):
                 changed = True
                 break
@@ -629,12 +1002,70 @@ def signature_of(cfg):
                              else (-len(mb["terms"]), 0) for mb in cfg["members"]))
     else:
         shape = (tuple(cfg["user"]), json.dumps(cfg["noise"], sort_keys=True))
-    return (cfg["kind"], cfg["backend"], cfg["m"], hs, cfg["filter"], cfg["ps"], cfg["keep"], shape)
+    return (cfg["kind"], cfg["backend"], cfg["m"], hs, cfg["filter"], cfg["ps"], cfg["keep"], shape,
+            json.dumps(cfg.get("dets")), bool(cfg.get("prev")))
+
+
+def ps_modes(j):
+    if j is True:
+        return set()
+    if "c" in j:
+        return set(j["c"])
+    out = set()
+    for v in j.values():
+        for x in (v if isinstance(v, list) else [v]):
+            out |= ps_modes(x)
+    return out
+
+
+def shape_branches(chk, cfg):
+    """counters of the shapes the seeded-change classes need (declaration order, detector layouts, reuse)"""
+    decl = [list(h) for h in cfg["heralds"]]
+    m = cfg["m"]
+    hm = {k for k, _ in decl}
+    if decl != sorted(decl):
+        chk.branch("heralds-declared-out-of-order")
+        for i, (a, _) in enumerate(decl):
+            if any(b < a for b, _ in decl[i + 1:]) and any(k > a and k not in hm for k in range(m)):
+                chk.branch("descending-heralds-free-mode-after")
+                break
+    dets = cfg.get("dets")
+    if dets is None:
+        chk.branch("no-detector-list")
+    elif dets_all_pnr(dets):
+        chk.branch("detectors-all-pnr")
+    elif all(d == "thr" for d in dets):
+        chk.branch("detectors-all-threshold")
+    else:
+        chk.branch("detectors-mixed")
+    if dets and not dets_all_pnr(dets):
+        if any(isinstance(d, list) for d in dets):
+            chk.branch("detector-ppnr")
+        if hm and all(det_is_pnr(dets[k]) for k in hm):
+            chk.branch("mixed-detectors-heralds-pnr")
+        if any(not det_is_pnr(dets[k]) for k in hm):
+            chk.branch("non-pnr-detector-on-herald")
+        if cfg["kind"] == "proc" and cfg.get("dets_first"):
+            chk.branch("detectors-declared-before-heralds")
+    if cfg["ps"] and not cfg["keep"] and hm and min(hm) < max(ps_modes(cfg["psj"]) or {-1}):
+        chk.branch("postselect-mode-after-dropped-herald")
+    prev = cfg.get("prev")
+    if prev:
+        chk.branch("reused-simulator" if cfg["kind"] == "sim" else "reused-processor")
+        if cfg["kind"] == "sim":
+            if prev["heralds"] and dets_all_pnr(prev["dets"]) and (not decl or not dets_all_pnr(dets)):
+                chk.branch("mask-cleared-on-reuse")
+            if sorted(map(list, prev["heralds"])) != sorted(decl):
+                chk.branch("reused-with-other-heralds")
+        else:
+            for k in prev:
+                chk.branch("reused-processor-changed-" + k)
 
 
 def handle(chk, cfg, do_shrink=True):
-    hs = cfg["heralds"]
+    hs = sorted(list(h) for h in cfg["heralds"])
     H = sum(v for _, v in hs)
+    shape_branches(chk, cfg)
     chk.count("kind", cfg["kind"] + "/" + cfg["backend"])
     chk.count("m", cfg["m"])
     chk.count("n_heralds", len(hs))
@@ -696,32 +1127,32 @@ def handle(chk, cfg, do_shrink=True):
 
 def malformed(chk, rng, n):
     """wrong-length user inputs: both sides must refuse (check_input / the model's length guard)"""
-    import perceval as pcvl
     for _ in range(n):
         m = rng.randint(2, 5)
         heralds = gen_heralds(rng, m, allow2=False)
         if len(heralds) == m:
             heralds = heralds[:-1]
+        heralds = declare(rng, heralds)
         free = m - len(heralds)
         ln = rng.choice([x for x in (free - 1, free + 1, m, m + 1) if x != free and x >= 0])
         user = [rng.randint(0, 1) for _ in range(ln)]
-        p = pcvl.Processor("SLOS", m)
-        for k, v in heralds:
-            p.add_herald(k, v)
-        try:
-            p.with_input(pcvl.BasicState(user))
-            real = "accepted"
-        except AssertionError:
-            real = "AssertionError"
-        except Exception as e:  # noqa: BLE001
-            real = type(e).__name__
-        rep = chk.lean.ask({"op": "interleave", "m": m, "heralds": heralds, "user": user})
-        chk.branch("rejected-input")
-        chk.case(("malformed", m, tuple(map(tuple, heralds)), ln), nontrivial=False)
-        if rep.get("err") != real:
-            chk.fail("violation" if real == "accepted" else "broken", "with_input-length",
-                     f"with_input({user}) on {m} modes with heralds {heralds}: code {real}, model {rep}",
-                     {"malformed": {"m": m, "heralds": heralds, "user": user}})
+        check_malformed(chk, {"m": m, "heralds": heralds, "user": user})
+
+
+def check_malformed(chk, mf):
+    try:
+        real = chk.real.call("malformed_real", mf["m"], mf["heralds"], mf["user"])
+    except Crash as e:
+        chk.fail("violation", "native-crash", f"with_input({mf['user']}) with heralds {mf['heralds']}: {e.how}",
+                 {"malformed": mf})
+        return
+    rep = chk.lean.ask({"op": "interleave", "m": mf["m"], "heralds": mf["heralds"], "user": mf["user"]})
+    chk.branch("rejected-input")
+    chk.case(("malformed", mf["m"], tuple(map(tuple, mf["heralds"])), len(mf["user"])), nontrivial=False)
+    if rep.get("err") != real:
+        chk.fail("violation" if real == "accepted" else "broken", "with_input-length",
+                 f"with_input({mf['user']}) on {mf['m']} modes with heralds {mf['heralds']}: code {real}, model {rep}",
+                 {"malformed": mf})
 
 
 def silence():
@@ -740,66 +1171,78 @@ def load_corpus():
     return out
 
 
+REQUIRED = ["mask-path", "no-heralds", "herald-in-the-middle", "adjacent-heralds", "herald-value-2",
+            "post-selection", "several-groups-under-mask", "group-smaller-than-heralds",
+            "budget-capped-by-n_ext", "input-below-filter", "filter-below-photon-number",
+            "keep-heralds", "drop-heralds", "noisy-source", "automatic-filter", "interleave",
+            "superposed-input", "nothing-retained", "mask-path-with-retained-mass", "rejected-input",
+            "evolve", "evolve-distribution-compared",
+            # shapes added after the seeded-change review
+            "heralds-declared-out-of-order", "descending-heralds-free-mode-after",
+            "no-detector-list", "detectors-all-pnr", "detectors-all-threshold", "detectors-mixed",
+            "detector-ppnr", "mixed-detectors-heralds-pnr", "non-pnr-detector-on-herald",
+            "detectors-declared-before-heralds", "detector-filter-bites-under-pnr-heralds",
+            "postselect-mode-after-dropped-herald", "reused-simulator", "reused-processor",
+            "mask-cleared-on-reuse", "reused-with-other-heralds", "reused-processor-changed-filter",
+            "reused-processor-changed-user", "reused-processor-changed-ps", "reused-processor-changed-noise"]
+
+
 def run(chk: core.Check):
-    import perceval as pcvl
-    pcvl.random_seed(chk.seed)
-    silence()
     chk.rule = ("random configurations through Simulator.probs_svd (tagged mixtures, a few superposed members) and "
-                "Processor.probs() (perfect and noisy sources, explicit and automatic filter) at precision 0; "
-                "distinct = distinct (entry point, engine, m, heralds with values, filter, post-selection, keep_heralds, "
-                "input shape) signatures; non-trivial = at least one heralded mode (the mask path is active)")
+                "Processor.probs() (perfect and noisy sources, explicit and automatic filter) at precision 0, heralds "
+                "declared in any order, detector layouts none / PNR / threshold / pseudo-PNR / mixed, fresh objects and "
+                "objects that already answered another request; "
+                "distinct = distinct (entry point, engine, m, heralds with values in declaration order, filter, "
+                "post-selection, keep_heralds, input shape, detector layout, reused or not) signatures; "
+                "non-trivial = at least one heralded mode (the mask path is active)")
     chk.assumptions = [
         "probability trimming of _preprocess_svd / list_tensor_product is not modelled: the check runs at "
         "precision=0 (threshold min_p=1e-16); measured on the clean tree, default precision differs by <= 2e-4",
         "the engines' unconditioned distributions are C02's subject; here the oracle is the exact Fock-space "
         "evaluation on the matrix the circuit reports, and the direct oracle uses a selection-free Simulator",
         "input mixtures of Processor.probs() are taken from Processor.source_distribution (the source model is C06)",
-        "detectors other than PNR (threshold, PPNR) are not exercised (C08 models them); they switch the mask off",
+        "detector kernels (threshold: min(k,1); interleaved pseudo-PNR: closed form C(w,j)*surj(k,j)/w^k capped at "
+        "max_detections) are data of the specification here — Detector.detect itself is C08's subject; detectors are "
+        "not combined with superposed input states",
+        "a herald whose expected value exceeds what the detector on its mode can report (check_heralds_detectors' "
+        "early exit: empty results, physical_perf 1) is not generated",
+        "when the photon filter can never pass after detection (exact physical_perf 0) the conditional "
+        "logical_perf is undefined: only results, physical_perf and the product are compared",
+        "the automatic filter of a perfect source is stored by the first probs(); the reuse phase does not change the "
+        "input of a processor that relies on it",
     ]
-    chk.required_branches = ["mask-path", "no-heralds", "herald-in-the-middle", "adjacent-heralds", "herald-value-2",
-                             "post-selection", "several-groups-under-mask", "group-smaller-than-heralds",
-                             "budget-capped-by-n_ext", "input-below-filter", "filter-below-photon-number",
-                             "keep-heralds", "drop-heralds", "noisy-source", "automatic-filter", "interleave",
-                             "superposed-input", "nothing-retained", "mask-path-with-retained-mass", "rejected-input",
-                             "evolve", "evolve-distribution-compared"]
+    chk.required_branches = list(REQUIRED)
     chk.lean = core.LeanDriver("C04")
-    rng = chk.rng
-    for cfg in load_corpus():
-        handle(chk, cfg, do_shrink=False)
-    n_sim = chk.pick(520, 4600)
-    n_sup = chk.pick(60, 500)
-    n_proc = chk.pick(220, 1600)
-    max_m = 5
-    for _ in range(n_sim):
-        handle(chk, gen_sim_config(rng, max_m))
-    for _ in range(n_sup):
-        handle(chk, gen_sim_config(rng, 4, superposed=True))
-    for _ in range(n_proc):
-        handle(chk, gen_proc_config(rng, max_m))
-    malformed(chk, rng, chk.pick(30, 300))
+    chk.real = RealWorker(chk.seed)
+    try:
+        rng = chk.rng
+        for cfg in load_corpus():
+            handle(chk, cfg, do_shrink=False)
+        n_sim = chk.pick(560, 4800)
+        n_sup = chk.pick(50, 450)
+        n_proc = chk.pick(300, 2200)
+        max_m = 5
+        for _ in range(n_sim):
+            handle(chk, gen_sim_config(rng, max_m))
+        for _ in range(n_sup):
+            handle(chk, gen_sim_config(rng, 4, superposed=True))
+        for _ in range(n_proc):
+            handle(chk, gen_proc_config(rng, max_m))
+        malformed(chk, rng, chk.pick(30, 300))
+        chk.extra["real_code_worker_crashes"] = chk.real.crashes
+    finally:
+        chk.real.close()
 
 
 def replay(chk, data):
-    import perceval as pcvl
-    pcvl.random_seed(chk.seed)
-    silence()
     chk.lean = core.LeanDriver("C04")
+    chk.real = RealWorker(chk.seed)
     chk.rule = "replay of one stored configuration"
     rp = data["replay"]
-    if "config" in rp:
-        handle(chk, rp["config"], do_shrink=False)
-    else:
-        mf = rp["malformed"]
-        p = pcvl.Processor("SLOS", mf["m"])
-        for k, v in mf["heralds"]:
-            p.add_herald(k, v)
-        try:
-            p.with_input(pcvl.BasicState(mf["user"]))
-            real = "accepted"
-        except Exception as e:  # noqa: BLE001
-            real = type(e).__name__
-        rep = chk.lean.ask({"op": "interleave", "m": mf["m"], "heralds": mf["heralds"], "user": mf["user"]})
-        chk.case(("malformed",), nontrivial=False)
-        if rep.get("err") != real:
-            chk.fail("violation" if real == "accepted" else "broken", "with_input-length",
-                     f"code {real}, model {rep}", rp)
+    try:
+        if "config" in rp:
+            handle(chk, rp["config"], do_shrink=False)
+        else:
+            check_malformed(chk, rp["malformed"])
+    finally:
+        chk.real.close()
